@@ -1511,3 +1511,73 @@ func predicatePins(p *core.Program, fn *types.Func) map[string]bool {
 	w.WalkBody(fd.Decl.Body, nil)
 	return common
 }
+
+// SelectorTextSingleAssignment is C09-sel-var: the text a selector renderer returned (a string function of package
+// connlist that takes a LabelSelector - the subjects of C09-sel) is what identifies and labels a representative peer in
+// the output; a local that holds it is never assigned again. Overwriting it with an abbreviation (the namespace name
+// alone, say) on a path that does not pin the rest of the selector makes one format show a different relation than
+// the others - and, where the text also serves as the node's identity, merges distinct peers.
+func SelectorTextSingleAssignment(p *core.Program, r *core.Report, rule string) {
+	isRenderer := func(fn *types.Func) bool {
+		if fn == nil || fn.Pkg() == nil || fn.Pkg().Path() != core.PkgConnlist {
+			return false
+		}
+		sig := fn.Type().(*types.Signature)
+		if sig.Results().Len() != 1 {
+			return false
+		}
+		if b, ok := sig.Results().At(0).Type().Underlying().(*types.Basic); !ok || b.Kind() != types.String {
+			return false
+		}
+		for i := 0; i < sig.Params().Len(); i++ {
+			if strings.HasSuffix(sig.Params().At(i).Type().String(), "meta/v1.LabelSelector") {
+				return true
+			}
+		}
+		return false
+	}
+	n := 0
+	for _, fd := range p.FuncsIn(core.PkgConnlist) {
+		info := fd.Pkg.TypesInfo
+		holders := map[types.Object]*ast.AssignStmt{}
+		ast.Inspect(fd.Decl.Body, func(nd ast.Node) bool {
+			as, ok := nd.(*ast.AssignStmt)
+			if !ok || len(as.Lhs) != 1 || len(as.Rhs) != 1 {
+				return true
+			}
+			if c, isC := ast.Unparen(as.Rhs[0]).(*ast.CallExpr); isC && isRenderer(core.Callee(info, c)) {
+				if id, isId := as.Lhs[0].(*ast.Ident); isId && id.Name != "_" {
+					if _, has := holders[info.ObjectOf(id)]; !has {
+						holders[info.ObjectOf(id)] = as
+					}
+				}
+			}
+			return true
+		})
+		for o, def := range holders {
+			n++
+			bad := ""
+			ast.Inspect(fd.Decl.Body, func(nd ast.Node) bool {
+				as, ok := nd.(*ast.AssignStmt)
+				if !ok || as == def {
+					return true
+				}
+				for _, l := range as.Lhs {
+					if id, isId := ast.Unparen(l).(*ast.Ident); isId && info.ObjectOf(id) == o {
+						if len(as.Rhs) == 1 {
+							if c, isC := ast.Unparen(as.Rhs[0]).(*ast.CallExpr); isC && isRenderer(core.Callee(info, c)) {
+								continue // re-rendered by a renderer: still a full rendering
+							}
+						}
+						bad = p.Pos(as.Pos())
+					}
+				}
+				return true
+			})
+			r.Check(bad == "", rule, fmt.Sprintf("%s: the selector text %s is not overwritten", fd.Key(), core.Stable(info, def.Rhs[0])), p.Pos(def.Pos()), "single assignment",
+				"a local that holds the rendering of a label selector is assigned again at "+bad+": the text that labels (and in dot identifies) the representative peer no longer renders the whole selector on that path")
+		}
+	}
+	r.RuleCounts[rule] = n
+	r.Floor(rule, 2)
+}
